@@ -50,6 +50,8 @@ func sigClass(sig string) string {
 		return p[0] + "/" + p[1] // composition signature without operand source
 	case "F1lit":
 		return sig
+	case "F13s":
+		return p[0] + "/" + p[1] // wrapping; the op sequence is in the detail
 	case "F5reach":
 		// entry-point/helper counts, declaration order and the set of touched global kinds
 		if len(p) >= 6 {
@@ -200,6 +202,9 @@ func familyByName(name string) *wgen.Family {
 	var mini int
 	if n, _ := fmt.Sscanf(name, "F2Lm%dk%d", &mini, &k); n == 2 {
 		return wgen.F2LMini(k, mini)
+	}
+	if n, _ := fmt.Sscanf(name, "F13sd%d", &k); n == 1 {
+		return wgen.F13s(k)
 	}
 	if n, _ := fmt.Sscanf(name, "F2m%dk%d", &mini, &k); n == 2 {
 		return wgen.F2Mini(k, mini)
